@@ -100,6 +100,7 @@ class IntDom(Dom):
             eng.add_fact(v >= self.lo)
         if self.hi is not None:
             eng.add_fact(v <= self.hi)
+        eng.set_bounds(v, self.lo, self.hi)
         return SymInt(v)
 
     def describe(self):
